@@ -1676,4 +1676,69 @@ theorem dir_out_b (d : MDir) (hv : d.verb = 98) (a : Bytes) :
   refine ⟨o, ho, ?_⟩
   simp [MDir.out, hv, ho]
 
+/-! ## numeric arguments: Go's ParseInt against strtoimax (plain decimal numerals) -/
+
+theorem decdigit_vals : ∀ c : UInt8, (48 ≤ c ∧ c ≤ 57) →
+    digitVal c = some (c.toNat - 48) ∧ Spec.hexVal c = some (c.toNat - 48) ∧ c.toNat - 48 < 10 ∧
+    c ≠ 43 ∧ c ≠ 45 ∧ c ≠ 39 ∧ c ≠ 34 ∧ Spec.isSpace c = false := by
+  apply uint8_forall
+  decide +kernel
+
+theorem validDigits_dec (ds : Bytes) (h : ∀ d ∈ ds, 48 ≤ d ∧ d ≤ 57) : ValidDigits 10 ds := fun d hd =>
+  ⟨_, (decdigit_vals d (h d hd)).1, (decdigit_vals d (h d hd)).2.2.1⟩
+
+theorem scanDigits_dec : ∀ (ds : Bytes) (acc : Nat) (any : Bool), (∀ d ∈ ds, 48 ≤ d ∧ d ≤ 57) →
+    Spec.scanDigits 10 ds acc any = (foldv 10 ds acc, [], any || !ds.isEmpty)
+  | [], acc, any, _ => by simp [Spec.scanDigits, foldv_nil]
+  | d :: ds, acc, any, h => by
+    obtain ⟨h1, h2, h3, _⟩ := decdigit_vals d (h d (List.mem_cons_self ..))
+    rw [Spec.scanDigits, h2]
+    simp only [h3, if_true]
+    rw [scanDigits_dec ds _ true (fun x hx => h x (List.mem_cons_of_mem _ hx)), foldv_cons, h1]
+    simp
+
+/-- ParseUint with base 0 on a decimal numeral without leading zero. -/
+theorem parseUint_base0_dec (c0 : UInt8) (t : Bytes) (h : ∀ d ∈ c0 :: t, 48 ≤ d ∧ d ≤ 57) (h0 : c0 ≠ 48) :
+    parseUint (c0 :: t) 0 0 =
+      if foldv 10 (c0 :: t) 0 ≤ maxU64 then (foldv 10 (c0 :: t) 0, .ok) else (maxU64, .range) := by
+  have hloop := parseUintLoop_valid 10 (by decide) true (2 ^ 64 - 1) (by decide) false (c0 :: t) 0
+    (validDigits_dec _ h) (Nat.zero_le _)
+  have hm : (2 : Nat) ^ 64 - 1 = maxU64 := by decide
+  unfold parseUint
+  simp only [reduceCtorEq, if_false, if_true, h0, beq_self_eq_true]
+  rw [hloop, hm]
+  by_cases hle : foldv 10 (c0 :: t) 0 ≤ maxU64
+  · simp [hle]
+  · simp [hle]
+
+/-- On a plain decimal numeral (no sign, no leading zero) Go's ParseInt and bash's strtoimax give
+    the same int64, and bash reports no error. -/
+theorem numeric_arg_decimal (c0 : UInt8) (t : Bytes) (h : ∀ d ∈ c0 :: t, 48 ≤ d ∧ d ≤ 57) (h0 : c0 ≠ 48) :
+    (parseInt (c0 :: t)).1 = (Spec.signedArg (c0 :: t)).val ∧ (Spec.signedArg (c0 :: t)).bad = false := by
+  obtain ⟨_, _, _, h43, h45, h39, h34, hsp⟩ := decdigit_vals c0 (h c0 (List.mem_cons_self ..))
+  have hscan : Spec.scanNum (c0 :: t) = { neg := false, mag := foldv 10 (c0 :: t) 0, rest := [] } := by
+    unfold Spec.scanNum
+    simp [List.dropWhile, hsp, h43, h45, h0, scanDigits_dec (c0 :: t) 0 false h]
+  have hspec : Spec.signedArg (c0 :: t) =
+      { val := if (foldv 10 (c0 :: t) 0 : Int) > 9223372036854775807 then 9223372036854775807
+               else (foldv 10 (c0 :: t) 0 : Int), bad := false } := by
+    unfold Spec.signedArg
+    simp only [Spec.quoteCode, h39, h34, or_self, if_false, hscan]
+    simp
+    omega
+  rw [hspec]
+  refine ⟨?_, rfl⟩
+  unfold parseInt
+  simp only [reduceCtorEq, if_false, h43, h45, parseUint_base0_dec c0 t h h0]
+  by_cases hle : foldv 10 (c0 :: t) 0 ≤ maxU64
+  · rw [if_pos hle]
+    simp only [two63]
+    by_cases hbig : foldv 10 (c0 :: t) 0 ≥ 9223372036854775808
+    · simp [hbig]; omega
+    · simp [hbig]; omega
+  · rw [if_neg hle]
+    simp only [maxU64] at hle
+    simp [two63, maxU64]; omega
+
+
 end ShVerif.C24
